@@ -388,28 +388,40 @@ func (w *world) exercise(h *keyset.Handle, sh *shape, written []string, ctx stri
 	if _, fb := primaryKey.(*protoserialization.FallbackProtoPrivateKey); fb {
 		pkt += ":" + strings.TrimPrefix(sh.urls[sh.primary], "type.googleapis.com/")
 	}
-	// weakest enabled key of the handle
-	weakRule, weakType := "", ""
+	// enabled keys of the handle below the stated minimum strengths
+	type weakKey struct {
+		rule, typ, class string
+		primary          bool
+	}
+	var weak []weakKey
 	w.guard("key-accessors", func() {
 		for i, k := range sh.keys {
 			if sh.statuses[i] != keyset.Enabled {
 				continue
 			}
 			if rule := weakness(k); rule != "" {
-				weakRule, weakType = rule, keyTypeName(k)
-				break
+				weak = append(weak, weakKey{rule, keyTypeName(k), classOfKey(k), i == sh.primary})
 			}
 		}
 	})
-	if weakRule != "" {
+	if len(weak) > 0 {
 		r.Probe("weak-key-accepted-by-reader")
 	}
+	// A primitive the factories agree to build is a finding only if it USES the weak key: producing primitives (and
+	// the hybrid encrypter) use the primary key only; accepting primitives are built from every enabled key of their
+	// class. A signer built from a sound primary next to a weak AES key of another class does not use the weak key.
 	usable := func(class, side string) {
-		if weakRule != "" {
-			r.Violation(fmt.Sprintf("C14/weak-key-usable:%s:%s", weakType, weakRule),
-				fmt.Sprintf("%s: the %s factory built a %s primitive although the handle holds an ENABLED %s key breaking %q", ctx, class, side, weakType, weakRule))
+		for _, wk := range weak {
+			if wk.class != class {
+				continue
+			}
+			if (side == "producing" || side == "encrypter") && !wk.primary {
+				continue
+			}
+			r.Violation(fmt.Sprintf("C14/weak-key-usable:%s:%s", wk.typ, wk.rule),
+				fmt.Sprintf("%s: the %s factory built a %s primitive that uses the ENABLED %s key breaking %q", ctx, class, side, wk.typ, wk.rule))
 		}
-		if w.weakExpect != "" && depth == 0 {
+		if w.weakExpect != "" && depth == 0 && class == w.weakClass && (w.weakPrimary || (side != "producing" && side != "encrypter")) {
 			r.Violation(fmt.Sprintf("C14/weak-key-built:%s", w.weakExpect),
 				fmt.Sprintf("%s: the %s factory built a %s primitive from a keyset holding the hand-built weak key %s (ENABLED)", ctx, class, side, w.weakExpect))
 		}
